@@ -50,9 +50,11 @@ theorem propagateInline_total (sel : BackendSel) (ctx : NodeCtx) (g : List Strin
   · by_cases h2 : sel = .none
     · exact ⟨[], by simp [propagateInline, h1, h2, Variant.fixed]⟩
     · have h2' : (sel == BackendSel.none) = false := by simpa using h2
-      cases hc : convertInline sel feed (g.zip ctx.outputs) with
-      | ok rs => exact ⟨dictOf rs, by simp [propagateInline, h1, h2', hfeed, hc]⟩
-      | error e => exact ⟨[], by simp [propagateInline, h1, h2', hfeed, hc, Variant.fixed]⟩
+      by_cases h3 : ctx.hasSubgraph = true
+      · exact ⟨[], by simp [propagateInline, h1, h2', h3]⟩
+      · cases hc : convertInline sel feed (g.zip ctx.outputs) with
+        | ok rs => exact ⟨dictOf rs, by simp [propagateInline, h1, h2', h3, hfeed, hc]⟩
+        | error e => exact ⟨[], by simp [propagateInline, h1, h2', h3, hfeed, hc, Variant.fixed]⟩
 
 theorem propagate_total (sel : BackendSel) (k : Kind) (ctx : NodeCtx) (b : Backend)
     (hb : Backend.raisesOnlyExceptions b) :
@@ -429,5 +431,64 @@ theorem off_is_transparent_counterexample :
       { inputs := [⟨"inputs_0", some "output", some tI64x2, true⟩],
         outputs := [⟨"outputs_0", some tI64x2, none⟩], hasSubgraph := false }
       (.ret ["y"] [.arr .i64 [2] 1])) = some .runtimeError := by decide
+
+
+/-! ### no object array on a tensor Var from either pipeline (fix 05c97c9) -/
+
+/-- A tensor value converted from a backend result is never an object array of `str`: both pipelines
+    normalise it to a string array - the representation `from_array` (the next operator's singleton
+    model) accepts. Before the fix the REFERENCE pipeline kept the object array, `check` accepted it for a
+    string tensor, and the NEXT constructor raised TypeError. -/
+theorem tensor_value_never_object (sel : BackendSel) (e : DT) (s : Shape) (v : RefVal) (pv : PropValue)
+    (h : unwrapFeed sel (.tensor e s) v = .ok pv) :
+    ∀ dt sh pid, pv.value = .arr dt sh pid → dt ≠ .object := by
+  intro dt sh pid hv
+  cases sel with
+  | none => cases h
+  | reference =>
+    simp only [unwrapFeed, fromRef] at h
+    generalize unwrap1 v = w at h
+    cases w with
+    | arr d sh' pid' =>
+      simp only [leafRef, Except.ok.injEq] at h
+      subst h
+      simp only [PropValue.new, PropValue.value, Payload.normalise, Payload.arr.injEq] at hv
+      obtain ⟨rfl, _, _⟩ := hv
+      cases d <;> simp [DT.isNumber, DT.norm]
+    | scalar d pid' =>
+      simp only [leafRef, Except.ok.injEq] at h
+      subst h
+      simp only [PropValue.new, PropValue.value, Payload.normalise, Payload.arr.injEq] at hv
+      obtain ⟨rfl, _, _⟩ := hv
+      cases d <;> simp [DT.isNumber, DT.norm]
+    | «opaque» pid' =>
+      simp only [leafRef, Except.ok.injEq] at h
+      subst h
+      simp only [PropValue.new, PropValue.value, Payload.normalise, Payload.arr.injEq] at hv
+      obtain ⟨rfl, _, _⟩ := hv
+      simp [DT.isNumber]
+    | ragged => simp [leafRef] at h
+    | none =>
+      simp only [leafRef, Except.ok.injEq] at h
+      subst h
+      simp [PropValue.new, PropValue.value, Payload.normalise] at hv
+    | list xs => simp [leafRef] at h
+  | onnxruntime =>
+    simp only [unwrapFeed, fromOrt] at h
+    cases v with
+    | arr d sh' pid' =>
+      simp only [leafOrt, Except.ok.injEq] at h
+      subst h
+      simp only [PropValue.new, PropValue.value, Payload.normalise, Payload.arr.injEq] at hv
+      obtain ⟨rfl, _, _⟩ := hv
+      cases d <;> simp [DT.isNumber, DT.norm]
+    | none =>
+      simp only [leafOrt, Except.ok.injEq] at h
+      subst h
+      simp [PropValue.new, PropValue.value, Payload.normalise] at hv
+    | scalar d pid' => simp [leafOrt] at h
+    | «opaque» pid' => simp [leafOrt] at h
+    | ragged => simp [leafOrt] at h
+    | list xs => simp [leafOrt] at h
 
 end C15
